@@ -55,6 +55,9 @@ type Kind struct {
 	Emb     bool
 	EmbName string
 	NoApply bool // embedded struct without fields: gombok leaves it out of tuples/Apply/Mutable conversion
+	// Collide names the helper package of the generated code whose NAME this kind's package shares
+	// (the type is Level from the scratch sub-package scratchmod/x/<Collide>).
+	Collide string
 	// JSON part (C15)
 	JVals  func(i int, e Env) [2]string // faithful values; nil = same as Vals
 	JFail  bool                         // json.Marshal fails on this type (func, chan)
@@ -596,6 +599,61 @@ func UserDefined() []*Shape {
 	return out
 }
 
+// CollidePkgs are the names of the scratch sub-packages scratchmod/x/<name>, each declaring
+// `type Level int`. option, as, fp, fmt, json and http are the packages gombok's value generator
+// imports into the generated file (read off NewImportPackage in cmd/gombok/gombok.go); seq, hlist
+// and product are imported by the derive generator only and serve as controls here.
+var CollidePkgs = []string{"option", "as", "fp", "fmt", "json", "http", "seq", "hlist", "product"}
+
+func collideKind(pkg string, emb bool) *Kind {
+	k := &Kind{ID: "x-" + pkg, Type: pkg + ".Level", Imports: []string{"scratchmod/x/" + pkg}, Collide: pkg,
+		Vals: simple("x"+pkg+".Level(%[1]d)", "x"+pkg+".Level(%[2]d)"), Omit: "no", JWrong: `"zz"`}
+	if emb {
+		k.Emb = true
+		k.EmbName = "Level"
+	}
+	return k
+}
+
+// Collide: a field whose named type comes from a user package that is NAMED like a package the
+// generated code imports, next to a companion Option field that forces the helper packages in
+// (with the Value sets also fmt/as/fp for String/AsTuple, with Json also encoding/json and
+// net/http), in both field orders, under every visibility and annotation set; plus one struct
+// that uses all of the colliding packages at once.
+func Collide() []*Shape {
+	var out []*Shape
+	opt := kindByID("opt-int")
+	for _, a := range []Annot{AnnV, AnnVJL, AnnGW, AnnB, AnnAAC} {
+		for _, pkg := range CollidePkgs {
+			for _, vis := range []string{"priv", "pub", "und", "emb"} {
+				x := Form{vis, collideKind(pkg, vis == "emb")}
+				for _, forms := range [][]Form{{x, {"priv", opt}}, {{"priv", opt}, x}, {x, {"pub", opt}}} {
+					if a.ID != "vjl" && forms[1].Vis == "pub" {
+						continue // the public companion only under the richest set
+					}
+					s := mkShape("collide", a, forms, nil)
+					out = append(out, s)
+				}
+			}
+		}
+		for _, vis := range []string{"priv", "pub"} {
+			var forms []Form
+			for _, pkg := range []string{"option", "as", "fmt", "json", "http"} {
+				forms = append(forms, Form{vis, collideKind(pkg, false)})
+			}
+			for _, order := range []string{"first", "last"} {
+				fs := append([]Form{{"priv", opt}}, forms...)
+				if order == "last" {
+					fs = append(append([]Form{}, forms...), Form{"priv", opt})
+				}
+				s := mkShape("collide", a, fs, nil)
+				out = append(out, s)
+			}
+		}
+	}
+	return out
+}
+
 // SortShapes orders shapes by id (stable, independent of enumeration order).
 func SortShapes(s []*Shape) {
 	sort.SliceStable(s, func(i, j int) bool { return s[i].ID < s[j].ID })
@@ -642,12 +700,12 @@ func (s *Shape) StructDecl(name string) string {
 		}
 		switch {
 		case f.Kind.Emb:
-			fmt.Fprintf(&b, "\t%s%s\n", f.Kind.Type, tag)
+			fmt.Fprintf(&b, "\t%s%s\n", s.declType(f), tag)
 		case f.Group && i+1 < len(s.Fields):
-			fmt.Fprintf(&b, "\t%s, %s %s%s\n", f.Name, s.Fields[i+1].Name, f.Kind.Type, tag)
+			fmt.Fprintf(&b, "\t%s, %s %s%s\n", f.Name, s.Fields[i+1].Name, s.declType(f), tag)
 			i++
 		default:
-			fmt.Fprintf(&b, "\t%s %s%s\n", f.Name, f.Kind.Type, tag)
+			fmt.Fprintf(&b, "\t%s %s%s\n", f.Name, s.declType(f), tag)
 		}
 	}
 	b.WriteString("}\n")
@@ -655,6 +713,25 @@ func (s *Shape) StructDecl(name string) string {
 		b.WriteString("\n" + strings.ReplaceAll(s.User, "%N", name) + "\n")
 	}
 	return b.String()
+}
+
+// collides reports whether a field's type comes from a user package named pkg.
+func (s *Shape) collides(pkg string) bool {
+	for _, f := range s.Fields {
+		if f.Kind.Collide == pkg {
+			return true
+		}
+	}
+	return false
+}
+
+// declType is the field's type as written in the declaration: when the struct also uses a user
+// package called fp, the user has to import github.com/csgura/fp under another name (cfp).
+func (s *Shape) declType(f Field) string {
+	if f.Kind.Collide == "" && s.collides("fp") {
+		return strings.ReplaceAll(f.Kind.Type, "fp.", "cfp.")
+	}
+	return f.Kind.Type
 }
 
 // DeclFile renders the source file holding the declaration.
@@ -691,6 +768,10 @@ func (s *Shape) DeclFile(pkg, name string) string {
 	if len(list) > 0 {
 		b.WriteString("import (\n")
 		for _, im := range list {
+			if im == fpImp && s.collides("fp") {
+				fmt.Fprintf(&b, "\tcfp %q\n", im)
+				continue
+			}
 			fmt.Fprintf(&b, "\t%q\n", im)
 		}
 		b.WriteString(")\n\n")
